@@ -149,6 +149,54 @@ def dependents(ctx, d1):
                     d1.fail(cons, 'stale-dependents-%s' % k, '%s but %s' % (what, ' and '.join(miss)), f, st)
 
 
+def _is_flip_expr(e, X, module, depth=0):
+    """e evaluates to X with its case swapped: X.swapcase(), X.lower() if X.isupper() else X.upper() (or the mirrored form), or a call of a
+    module-level helper whose single return is such an expression of its parameter"""
+    def call_on(x, meth):
+        return isinstance(x, ast.Call) and isinstance(x.func, ast.Attribute) and x.func.attr == meth and src(x.func.value) == X and not x.args
+    if call_on(e, 'swapcase'):
+        return True
+    if isinstance(e, ast.IfExp):
+        t = e.test
+        neg = isinstance(t, ast.UnaryOp) and isinstance(t.op, ast.Not)
+        if neg:
+            t = t.operand
+        a, b = (e.orelse, e.body) if neg else (e.body, e.orelse)
+        if call_on(t, 'isupper') and call_on(a, 'lower') and call_on(b, 'upper'):
+            return True
+        if call_on(t, 'islower') and call_on(a, 'upper') and call_on(b, 'lower'):
+            return True
+    if isinstance(e, ast.Call) and isinstance(e.func, ast.Name) and len(e.args) == 1 and src(e.args[0]) == X and depth < 2:
+        h = module.functions.get(e.func.id)
+        if h is not None and len(h.params) == 1:
+            rets = [r for r in walk_no_nested(h.node) if isinstance(r, ast.Return)]
+            body = [st for st in h.node.body if not (isinstance(st, ast.Expr) and isinstance(st.value, ast.Constant))]
+            if len(rets) == 1 and len(body) == 1:
+                return _is_flip_expr(rets[0].value, h.params[0], module, depth + 1)
+            if len(body) == 1 and isinstance(body[0], ast.If):
+                return _flips_case_return(body[0], h.params[0])
+    return False
+
+
+def _flips_case_return(node, X):
+    """if X.isupper(): return X.lower()  else: return X.upper()"""
+    if not (isinstance(node, ast.If) and src(node.test) == '%s.isupper()' % X and len(node.body) == 1 and len(node.orelse) == 1):
+        return False
+    a, b = node.body[0], node.orelse[0]
+    return isinstance(a, ast.Return) and isinstance(b, ast.Return) and src(a.value) == '%s.lower()' % X and src(b.value) == '%s.upper()' % X
+
+
+def _flips_case(st, X, module):
+    """the statement re-binds X to X with its case swapped"""
+    if isinstance(st, ast.Assign) and len(st.targets) == 1 and src(st.targets[0]) == X:
+        return _is_flip_expr(st.value, X, module)
+    if isinstance(st, ast.If) and src(st.test) in ('%s.isupper()' % X, '%s.islower()' % X) and len(st.body) == 1 and len(st.orelse) == 1:
+        up = src(st.test).endswith('isupper()')
+        a, b = (st.body[0], st.orelse[0]) if up else (st.orelse[0], st.body[0])
+        return src(a) == '%s = %s.lower()' % (X, X) and src(b) == '%s = %s.upper()' % (X, X)
+    return False
+
+
 def case_fallback(ctx, d2):
     prog = ctx.prog
     sites = [('ChemicalIndexer', 'to_material_indexer', IX), ('MaterialIndexer', 'to_material_indexer', IX)]
@@ -160,10 +208,7 @@ def case_fallback(ctx, d2):
             if isinstance(n, ast.If) and isinstance(n.test, ast.Compare) and isinstance(n.test.ops[0], ast.NotIn) \
                     and isinstance(n.test.left, ast.Name) and src(n.test.comparators[0]) == pp:
                 X = n.test.left.id
-                inner = n.body[0] if n.body else None
-                okk = isinstance(inner, ast.If) and src(inner.test) == '%s.isupper()' % X \
-                    and src(inner.body[0]) == '%s = %s.lower()' % (X, X) and inner.orelse and src(inner.orelse[0]) == '%s = %s.upper()' % (X, X) \
-                    and not n.orelse
+                okk = not n.orelse and len(n.body) == 1 and _flips_case(n.body[0], X, f.module)
                 found = True
                 if okk:
                     d2.ok('%s.%s' % (cname, mname), 'label is case-flipped only when the exact label is absent from the target phases', f, n)
